@@ -218,7 +218,13 @@ func WithTxReadClosers(ctx context.Context, db Database, opts *sql.TxOptions, fn
 	}
 
 	for i := range readers {
+		// Count each reader once: a repeated Close of the same reader must not
+		// release the transaction while other readers are still open.
+		var closed atomic.Bool
 		readers[i] = ioutils.NewReadCloserWithCloseHook(readers[i], func() error {
+			if closed.Swap(true) {
+				return nil
+			}
 			if atomic.AddInt64(&remaining, -1) == 0 {
 				return tx.Rollback(ctx)
 			}
